@@ -631,6 +631,10 @@ pub struct ProgCfg {
     pub custom_xml: bool,
     /// small programs for enumerating checks (few points, blobs of at most a few pages)
     pub small: bool,
+    /// per-mille chance that a program contains one item beyond small-test scale: a cloud of
+    /// 3 000 - 70 000 points (byte streams longer than 32 767 / 65 535 bytes, packets at the 64 KiB
+    /// limit, more than 65 535 points) or a blob of 64 - 200 KiB
+    pub big_permille: u32,
 }
 
 pub fn gen_point_count(r: &mut Rng, proto: &[Rec], knob: Option<usize>, max_knob_off: usize) -> usize {
@@ -707,7 +711,12 @@ pub fn gen_program(run_seed: u64, cfg: &ProgCfg) -> Program {
         let len = ((res as i64 - 64).rem_euclid(1020)) as usize + 1020 * r.usize_below(2);
         calls.push(Call::Blob { data: Bytes::draw(&mut r, len), pipe: Chunk::draw(&mut ch) });
     }
-    let items = r.usize_below(cfg.max_items + 1);
+    let mut items = r.usize_below(cfg.max_items + 1);
+    let want_big = !cfg.small && r.below(1000) < cfg.big_permille as u64;
+    let mut big_done = false;
+    if want_big {
+        items = items.max(1);
+    }
     let pcfg = ProtoCfg { ext_ns: ext_ns.clone(), max_records: 40, std_like_ext_names: r.chance(1, 4) };
     for _ in 0..items {
         match r.weighted(&[5, 3, 3]) {
@@ -716,6 +725,15 @@ pub fn gen_program(run_seed: u64, cfg: &ProgCfg) -> Program {
                 let mut n = gen_point_count(&mut r, &proto, cfg.knob, cfg.max_points_knob_off);
                 if cfg.small {
                     n = n.min(40);
+                }
+                if want_big && !big_done && r.chance(1, 2) {
+                    big_done = true;
+                    n = *r.pick(&[3_000usize, 8_191, 8_192, 16_384, 32_768, 65_535, 65_536, 70_000]);
+                    let bits: usize = proto.iter().map(|x| x.dt.bits() as usize).sum();
+                    // keep a big cloud below ~3 MiB of payload
+                    if bits > 0 {
+                        n = n.min(3 * 1024 * 1024 * 8 / bits).max(1);
+                    }
                 }
                 let mut steps: Vec<PcStep> = Vec::new();
                 let fields = gen_pc_fields(&mut r, &proto, &mcfg);
@@ -737,6 +755,10 @@ pub fn gen_program(run_seed: u64, cfg: &ProgCfg) -> Program {
                 let mut len = gen_blob_len(&mut r);
                 if cfg.small {
                     len %= 2600;
+                }
+                if want_big && !big_done && r.chance(1, 2) {
+                    big_done = true;
+                    len = *r.pick(&[65_535usize, 65_536, 65_537, 70_000, 131_072, 200_003]);
                 }
                 calls.push(Call::Blob { data: Bytes::draw(&mut r, len), pipe: Chunk::draw(&mut ch) });
             }
